@@ -128,9 +128,9 @@ def exhaustive_digraphs(res, rng, tier, lim):
         else:
             for m in range(1 << 16):
                 yield 4, m
-            for _ in range(150000):
+            for _ in range(40000):
                 yield 5, rng.randint(0, (1 << 25) - 1)
-            for _ in range(30000):
+            for _ in range(8000):
                 yield 6, rng.randint(0, (1 << 36) - 1)
     reqs, exp, meta = [], [], []
     for n, m in cases():
